@@ -16,8 +16,12 @@ META = {
              "including recovered and escaping panics, for every defer order; a request rejected by the prefix of a writing handler never "
              "entered the engine. not_holds_of_firstBad refutes the statement from a concrete shape when a program is unsafe. The programs "
              "are extracted from the AST on every run; the model's prediction (outcome class, error code and message, counters, store "
-             "change) is compared with the real handler on generated requests; the engine below the first SummonSwamp is a parameter of "
-             "the model (assumed not to panic; tested, not proved)."),
+             "change) is compared with the real handler on generated requests. PROVED: the validation prefix of every handler and the "
+             "defer discipline, plus three engine facts that are part of the programs as `need` steps and decided by the same checker "
+             "(negative paging offset unless the beacon clamps it; a non-writing handler must know the swamp exists before SummonSwamp "
+             "creates it; a creating handler must exclude keys the V2 writer refuses) - a live engine-level defect of these kinds makes "
+             "the verdict `violated`, never `holds`. NOT PROVED (hypothesis EngineSafe of `defined`, tested on every request incl. an "
+             "injected panic at SummonSwamp): apart from those cases the engine below the first SummonSwamp answers instead of panicking."),
     "note": ("Trusted: Lean kernel (propext, Classical.choice, Quot.sound); extract/c26.go (statement shapes it accepts; anything else "
              "makes the handler unrecognised and the verdict undetermined); harness/c26.go (shape abstraction of a request, snapshot "
              "comparison). Assumed and only tested: the engine below the prefix does not panic; repeated message fields never hold nil "
@@ -199,6 +203,13 @@ def run(ctx):
             # independent Spec oracle over every implementation reply.  A violation on a line the model
             # flags too is a prefix-level finding keyed by (rpc, shape); otherwise it happened below the
             # prefix (the model's engine parameter) and is keyed by (rpc, what went wrong) + the mutated field
+            # a line the model flags because of an engine fact (`need` step) counts as reproduced only where the
+            # implementation's own reply shows the violation (e.g. only the legacy engine persists the empty swamp)
+            for i, fl in enumerate(c.flags):
+                if fl and any(fl[0].endswith(t) for t in ("-missingswamp", "-negfrom", "-badkey")):
+                    op = c.ops[i] if i < len(c.ops) else ""
+                    if i < len(c.impl) and not impl_violation(op, c.impl[i]):
+                        c.flags[i] = []
             engine_known = set()
             for i, line in enumerate(c.impl):
                 op = c.ops[i] if i < len(c.ops) else ""
